@@ -32,6 +32,96 @@ func lockCallKind(in ssa.Instruction) (kind string, recv ssa.Value) {
 	return "", nil
 }
 
+// lockerKinds: the lock operations a call through a sync.Locker value stands for, one per
+// value the interface may hold: the struct itself (its embedded mutex's Lock/Unlock) or the
+// read side handed out by RLocker(). Returns the mutex field and the set of kinds
+// ("lock"/"rlock" for Lock, "unlock"/"runlock" for Unlock); nil when cc is not such a call.
+func lockerKinds(cc *ssa.CallCommon) (*types.Var, map[string]bool) {
+	if cc == nil || !cc.IsInvoke() || (cc.Method.Name() != "Lock" && cc.Method.Name() != "Unlock") {
+		return nil, nil
+	}
+	n, ok := cc.Value.Type().(*types.Named)
+	if !ok || n.Obj().Pkg() == nil || n.Obj().Pkg().Path() != "sync" || n.Obj().Name() != "Locker" {
+		return nil, nil
+	}
+	acquire := cc.Method.Name() == "Lock"
+	var field *types.Var
+	kinds := map[string]bool{}
+	okAll := true
+	var visit func(v ssa.Value, depth int)
+	visit = func(v ssa.Value, depth int) {
+		if depth > 4 {
+			okAll = false
+			return
+		}
+		switch x := v.(type) {
+		case *ssa.Phi:
+			for _, e := range x.Edges {
+				visit(e, depth+1)
+			}
+		case *ssa.MakeInterface:
+			// the struct with an embedded mutex: its promoted Lock/Unlock
+			pt, ok := x.X.Type().(*types.Pointer)
+			if !ok {
+				okAll = false
+				return
+			}
+			st, ok := pt.Elem().Underlying().(*types.Struct)
+			if !ok {
+				okAll = false
+				return
+			}
+			var mf *types.Var
+			for i := 0; i < st.NumFields(); i++ {
+				f := st.Field(i)
+				if !f.Embedded() {
+					continue
+				}
+				t := f.Type()
+				if p2, isP := t.(*types.Pointer); isP {
+					t = p2.Elem()
+				}
+				if nn, isN := t.(*types.Named); isN && nn.Obj().Pkg() != nil && nn.Obj().Pkg().Path() == "sync" && (nn.Obj().Name() == "RWMutex" || nn.Obj().Name() == "Mutex") {
+					mf = f
+				}
+			}
+			if mf == nil || field != nil && !eng.SameField(field, mf) {
+				okAll = false
+				return
+			}
+			field = mf
+			if acquire {
+				kinds["lock"] = true
+			} else {
+				kinds["unlock"] = true
+			}
+		case *ssa.Call:
+			if eng.CalleeName(x.Common()) != "(*sync.RWMutex).RLocker" {
+				okAll = false
+				return
+			}
+			mf := mutexField(x.Call.Args[0])
+			if mf == nil || field != nil && !eng.SameField(field, mf) {
+				okAll = false
+				return
+			}
+			field = mf
+			if acquire {
+				kinds["rlock"] = true
+			} else {
+				kinds["runlock"] = true
+			}
+		default:
+			okAll = false
+		}
+	}
+	visit(cc.Value, 0)
+	if !okAll || field == nil || len(kinds) == 0 {
+		return nil, nil
+	}
+	return field, kinds
+}
+
 // mutexField returns the struct field a mutex receiver expression denotes (embedded
 // sync.Mutex by address, or embedded *sync.RWMutex by load).
 func mutexField(recv ssa.Value) *types.Var {
@@ -49,6 +139,25 @@ type lockOps struct {
 func opsFor(field *types.Var) lockOps {
 	match := func(kinds ...string) func(cc *ssa.CallCommon) bool {
 		return func(cc *ssa.CallCommon) bool {
+			// through a sync.Locker: every value the interface may hold must be of a wanted
+			// kind (so "is a write acquisition" needs all of them to be Lock)
+			if lf, lk := lockerKinds(cc); lf != nil {
+				if !eng.SameField(lf, field) {
+					return false
+				}
+				for k := range lk {
+					okK := false
+					for _, w := range kinds {
+						if w == k {
+							okK = true
+						}
+					}
+					if !okK {
+						return false
+					}
+				}
+				return true
+			}
 			name := eng.CalleeName(cc)
 			k := ""
 			switch name {
@@ -565,6 +674,24 @@ func (c *Ctx) c09Mem(pm *pairModel) {
 				eng.EachInstr(g, func(in ssa.Instruction) {
 					if !mbOps.isAcq(in) {
 						return
+					}
+					// a Locker phi: each operand must be selected by the matching value of the mode
+					if lm.writeBool != nil {
+						okEdges, nEdges := true, 0
+						if lm.lockerEdges(p, in, func(kind string, v ssa.Value, pol bool) {
+							if lm.modeParamOf(p, v) != lm.modeIdx {
+								return
+							}
+							nEdges++
+							if (pol == *lm.writeBool) != (kind == "lock") {
+								okEdges = false
+							}
+						}) {
+							if !okEdges || nEdges == 0 {
+								shapeOK, why = false, "lock mode does not follow the mode parameter"
+							}
+							return
+						}
 					}
 					k, _ := lockCallKind(in)
 					wantWrite := k == "lock"
